@@ -33,11 +33,11 @@ CLAIMED["C03"] = dict(
    note="Bounds: Block Header sizes 8 and 12 bytes (quick), up to 24 (thorough). CRC32 is abstracted to an "
         "arbitrary value in the Block Header/Footer obligations (real CRC32 vs definition: Stream Header "
         "obligation and C14). The LZMA2 chunk layer (all inputs <= 8 quick / 10 thorough bytes, vs an independent "
-        "chunk-grammar parser), the Block decoder body, the Index verification (index_hash) and the MicroLZMA "
+        "chunk-grammar parser), the Block decoder body, the Index verification (index_hash), the Index decoder and the MicroLZMA "
         "wrapper are decided with the LZMA1 payload decoder / filter chain / hash functions as contract stubs "
         "(listed per obligation in the evidence). OUTSIDE the claim: lzma_decode() (LZMA payload bits) - measured "
         "not to reach a verdict under CBMC (also with --max-field-sensitivity-array-size); full stream_decode "
-        "sequencing across several Blocks; lzma_index_decoder.")
+        "sequencing across several Blocks.")
 NOT_APPLICABLE = {
  "C20": "xzgrep/xzdiff/xzless are POSIX shell scripts run by /bin/sh, sed, grep, diff: no symbolic executor for sh/sed exists in this image and CBMC/z3/cvc5 cannot execute them from source or IR; an SMT model of sed and shell quoting would verify the model, not the scripts.",
 }
@@ -183,8 +183,8 @@ CLAIMED["C09"] = dict(
         "otherwise MEMLIMIT_ERROR with nothing allocated, the amount reported, lower limits refused, the exact amount "
         "accepted and decoding resumed at the same point.",
    note="Also: the threaded decoder holds only the filter memory when it falls back to direct mode; xz -T1 with a user limit "
-        "shrinks every chain's dictionary or fails. NOT covered: the rest of the threaded decoder's accounting, .lz and "
-        "index/file-info gates, LZMA coder struct sizes beyond the LZ layer, mt encoder memusage / outq, xz's thread-count "
+        "shrinks every chain's dictionary or fails. The Index decoder's gate (MEMLIMIT_ERROR right after the Record count, memconfig, *memlimit update of lzma_index_buffer_decode) is decided against a monotone memusage model. NOT covered: the rest of the threaded decoder's accounting, .lz and "
+        "file-info gates, LZMA coder struct sizes beyond the LZ layer, mt encoder memusage / outq, xz's thread-count "
         "reduction branch, real peak heap of a process.")
 CLAIMED["C04"] = dict(
    text="Memory safety, absence of undefined behaviour, source assert()s and bounded termination (unwinding assertions) are "
@@ -194,7 +194,7 @@ CLAIMED["C04"] = dict(
         "valid dictionary (dict_repeat / put / get / wrap) and the completeness of lzma_decoder_reset.",
    note="THE LARGEST HOLE: lzma_decode() (LZMA payload bits -> dictionary operations) is outside - measured: symex does not "
         "finish; it is replaced by the assumption that it calls the dictionary primitives with validated distances. Also "
-        "outside: stream_decoder_mt under real concurrency, lzma_index_decoder, lzma_str_to_filters (tried: symbolic execution "
+        "outside: stream_decoder_mt under real concurrency, lzma_str_to_filters (tried: symbolic execution "
         "did not finish for 5-character strings), the SSE2 variant "
         "of dict_repeat, leak checking of full decode runs. dict_repeat content/frame parts are thorough-tier only.")
 for _p in ("C04", "C09"):
